@@ -185,7 +185,7 @@ def _binary(ctx, count, idx):
         log = os.path.join(work, "log%d" % n)
         os.makedirs(log)
         gen = os.path.join(work, "gen-ok-%d" % n)
-        os.symlink(ctx.paths["fakegen"], gen)
+        core.link_tool(ctx.paths["fakegen"], gen)
         with open(os.path.join(log, "gen-ok-%d.reply" % n), "wb") as f:
             f.write(wire.enc_reply([]))
         mode = rng.random()
@@ -268,13 +268,13 @@ def _binary_multi(ctx, count, idx):
                 bname = "gen-exit1-%d_%db" % (n, g)
                 bpath = os.path.join(work, "no-such-generator-%d_%d" % (n, g)) if kind == "missing" else os.path.join(work, bname)
                 if kind == "exit1":
-                    os.symlink(ctx.paths["fakegen"], bpath)
+                    core.link_tool(ctx.paths["fakegen"], bpath)
                 bargs = [(_rand_component(rng), _rand_component(rng, True)) for _ in range(rng.choice([1, 2, 4]))]
                 argv += [rng.choice(["-G", "--generator"]), genspec.render(bpath, bargs, rng)]
                 broken += 1
             name = "gen-ok-%d_%d" % (n, g)
             gen = os.path.join(work, name)
-            os.symlink(ctx.paths["fakegen"], gen)
+            core.link_tool(ctx.paths["fakegen"], gen)
             with open(os.path.join(log, name + ".reply"), "wb") as f:
                 f.write(wire.enc_reply([]))
             args = [(_rand_component(rng), _rand_component(rng, True)) for _ in range(rng.choice([0, 1, 2, 3, 5]))]
